@@ -33,6 +33,7 @@ def run(ctx):
         for front in ('v2', 'legacy'):
             pc.stage_c(ctx, front, ctx.pick(200, 3000), 40, devs=DEVS[front],
                        weights=dict(ValFinish=9, RecvData=8, RecvNack=0.5, RecvJunk=0.3))
+            pc.stage_c_long(ctx, front, ctx.pick(2, 20), devs=DEVS[front], weights=dict(ValFinish=9, RecvData=8))
             fc.stage_c(ctx, front, ctx.pick(200, 3000), 40,
                        weights=dict(RecvInterest=10, IntValFinish=8, Reply=1, AttachDup=1.5))
             fc.stage_c_long(ctx, front, ctx.pick(2, 12))
